@@ -132,6 +132,7 @@ class VCtx:
         except RecursionError:
             raise Unsupported("python recursion limit inside interpreter")
         except Exception as e:
+            self.last_exc = e
             return Outcome(exc=e)
 
     def use_symbolic_dicts(self):
@@ -147,6 +148,10 @@ class VCtx:
     # obligations --------------------------------------------------------------------------------
     def check(self, name, cond):
         status, backend, model = self.p.prove(cond)
+        if status == 'failed' and name in ('returns-normally', 'accepted', 'compatible-operands-accepted') and getattr(self, 'last_exc', None) is not None:
+            e = self.last_exc
+            self.result.obl.setdefault(name, {'status': 'proved', 'backends': {}, 'model': None, 'n': 0}).setdefault(
+                'detail', f"{type(e).__name__}: {e} at {getattr(e, 'pyvc_where', '?')}")
         if status == 'failed' and model is None and self.symbolic:
             model = self.p.model_of_path()
         self.result.record(name, status, backend, model, approx=self.p.approx)
@@ -241,7 +246,7 @@ def explore(pack_name, harness_name, label, params):
                 tb = traceback.format_exc(limit=-6)
                 res.record(TERMINATION, 'failed' if model is not None else 'unknown', 'z3', model,
                            approx=pctx.approx)
-                res.obl[TERMINATION].setdefault('detail', f"{type(e).__name__}: {e}\n{tb}")
+                res.obl[TERMINATION].setdefault('detail', f"{type(e).__name__}: {e} at {getattr(e, 'pyvc_where', '?')}\n{tb}")
             finally:
                 for k, v in interp.interpreted.items():
                     res.interpreted[k] = res.interpreted.get(k, 0) + v
